@@ -8,3 +8,73 @@ package bmc
 
 //@ func parseCipherSuiteRecordData
 //@ props C05 C16
+
+// ---- v2session.go: the retry closure of an in-session command
+//
+// Preconditions: the object invariant of an established session (sess.valid)
+// and no terminal error yet. The closure has no precondition on the layers:
+// every attempt rebuilds them from the session and the command (C10), so a
+// retransmission is serialised from the same values as the first attempt.
+
+//@ func (*V2Session).buildAndSend$1
+//@ props C03 C04 C05 C09 C10 C11 C18
+//@ requires [sess.valid] !isnil(s) && !isnil(s.v2ConnectionShared) && !isnil(s.buffer) && !isnil(s.transport) && !isnil(c) && !isnil(s.decode) && !isnil(ctx) && !isnil(s.confidentialityLayer)
+//@ requires [sess.term] isnil(terminalErr)
+//@ requires [C09.bound] s.AuthenticatedSequenceNumbers.Inbound < 0xfffffffe
+//@ at SerializeLayers assert [C09.seq] s.v2SessionLayer.Sequence == old(s.AuthenticatedSequenceNumbers.Inbound)+1 && sends() == old(sends())
+//@ at SerializeLayers assert [C03.wrapper] s.v2SessionLayer.Encrypted && s.v2SessionLayer.Authenticated && s.v2SessionLayer.ID == s.RemoteID &&
+//@    s.v2SessionLayer.PayloadDescriptor == ipmi.PayloadDescriptorIPMI && s.v2SessionLayer.IntegrityAlgorithm == s.integrityAlgorithm
+//@ at SerializeLayers assert [C03+C10.message] s.messageLayer.Operation == *c.Operation() && s.messageLayer.RemoteAddress == 0x20 && s.messageLayer.RemoteLUN == c.RemoteLUN() &&
+//@    s.messageLayer.LocalAddress == 0x81 && s.messageLayer.Sequence == 1 && s.messageLayer.CompletionCode == 0
+//@ at SerializeLayers assert [C03+C10.rmcp] s.rmcpLayer.Version == 6 && s.rmcpLayer.Sequence == 0xff && s.rmcpLayer.Class == 7 && !s.rmcpLayer.Ack
+//@ at Transport).Send assert [C09.send-seq] s.AuthenticatedSequenceNumbers.Inbound == old(s.AuthenticatedSequenceNumbers.Inbound)+1 && s.v2SessionLayer.Sequence == s.AuthenticatedSequenceNumbers.Inbound
+//@ ensures [C09.step] s.AuthenticatedSequenceNumbers.Inbound == old(s.AuthenticatedSequenceNumbers.Inbound)+uint32(sends()-old(sends())) && sends()-old(sends()) <= 1
+//@ ensures [C10.terminal] !isnil(terminalErr) ==> result == nil
+//@ ensures [C10.sent] isnil(terminalErr) ==> sends() == old(sends())+1
+//@ ensures [C10.final] result == nil && isnil(terminalErr) ==> !s.messageLayer.CompletionCode.IsTemporary()
+//@ ensures [C10.temporary] isnil(terminalErr) && sends() > old(sends()) && result == nil ==> s.messageLayer.CompletionCode != 0xc0 && s.messageLayer.CompletionCode != 0xc3
+//@ ensures [C04.accept] result == nil && isnil(terminalErr) && !isnil(s.integrityAlgorithm) ==> s.v2SessionLayer.Authenticated && s.v2SessionLayer.ID == s.LocalID
+//@ ensures [C04.session] result == nil && isnil(terminalErr) ==> s.v2SessionLayer.ID == s.LocalID
+//@ ensures [C11.match] result == nil && isnil(terminalErr) ==> s.messageLayer.Function == c.Operation().Function+1 && s.messageLayer.Command == c.Operation().Command &&
+//@    s.messageLayer.Body == c.Operation().Body && s.messageLayer.Enterprise == c.Operation().Enterprise
+//@ ensures [C18.retry] metric(commandRetries) == old(metric(commandRetries))+ite(old(firstAttempt), 0, 1)
+
+// ---- v2sessionless.go: the retry closures of session-less commands and RMCP+ payloads
+
+//@ func (*V2Sessionless).buildAndSendCommand$1
+//@ props C05 C09 C10 C11 C18
+//@ requires [conn.valid] !isnil(s) && !isnil(s.buffer) && !isnil(s.transport) && !isnil(c) && !isnil(s.decode) && !isnil(ctx) && bufValid(s.buffer)
+//@ at Transport).Send assert [C09.null-session] s.v2SessionLayer.ID == old(s.v2SessionLayer.ID) && s.v2SessionLayer.Sequence == old(s.v2SessionLayer.Sequence)
+//@ ensures [C10.sent] sends() == old(sends())+1
+//@ ensures [C10.final] result == nil ==> !s.messageLayer.CompletionCode.IsTemporary() && s.messageLayer.CompletionCode != 0xc0 && s.messageLayer.CompletionCode != 0xc3
+//@ ensures [C11.match] result == nil ==> s.messageLayer.Function == c.Operation().Function+1 && s.messageLayer.Command == c.Operation().Command &&
+//@    s.messageLayer.Body == c.Operation().Body && s.messageLayer.Enterprise == c.Operation().Enterprise
+//@ ensures [C18.retry] metric(commandRetries) == old(metric(commandRetries))+ite(old(firstAttempt), 0, 1)
+
+//@ func (*V2Sessionless).buildAndSendPayload$1
+//@ props C05 C10
+//@ requires [conn.valid] !isnil(s) && !isnil(s.buffer) && !isnil(s.transport) && !isnil(s.decode) && !isnil(ctx) && bufValid(s.buffer)
+//@ ensures [C10.sent] sends() == old(sends())+1
+
+// ---- v2sessionless.go / v2session.go: the functions that build the packet around the retry loop
+
+//@ func (*V2Sessionless).buildAndSendCommand
+//@ props C05 C09 C10 C06
+//@ requires [conn.valid] !isnil(s) && !isnil(s.buffer) && !isnil(s.transport) && !isnil(c) && !isnil(s.decode) && !isnil(ctx) && !isnil(s.backoff) && bufSmall(s.buffer)
+//@ at SerializeLayers assert [C09.null-wrapper] s.v2SessionLayer.ID == 0 && s.v2SessionLayer.Sequence == 0 && !s.v2SessionLayer.Encrypted && !s.v2SessionLayer.Authenticated &&
+//@    s.v2SessionLayer.PayloadDescriptor == ipmi.PayloadDescriptorIPMI
+//@ at SerializeLayers assert [C06+C10.message] s.messageLayer.Operation == *c.Operation() && s.messageLayer.RemoteAddress == 0x20 && s.messageLayer.RemoteLUN == c.RemoteLUN() &&
+//@    s.messageLayer.LocalAddress == 0x81 && s.messageLayer.Sequence == 1 && s.messageLayer.CompletionCode == 0
+//@ at SerializeLayers assert [C06.rmcp] s.rmcpLayer.Version == 6 && s.rmcpLayer.Sequence == 0xff && s.rmcpLayer.Class == 7 && !s.rmcpLayer.Ack
+
+//@ func (*V2Sessionless).buildAndSendPayload
+//@ props C05 C09 C10 C06
+//@ requires [conn.valid] !isnil(s) && !isnil(s.buffer) && !isnil(s.transport) && !isnil(p) && !isnil(s.decode) && !isnil(ctx) && !isnil(s.backoff) && bufSmall(s.buffer)
+//@ at SerializeLayers assert [C09.null-wrapper] s.v2SessionLayer.ID == 0 && s.v2SessionLayer.Sequence == 0 && !s.v2SessionLayer.Encrypted && !s.v2SessionLayer.Authenticated &&
+//@    s.v2SessionLayer.PayloadDescriptor == *p.Descriptor()
+//@ at SerializeLayers assert [C06.rmcp] s.rmcpLayer.Version == 6 && s.rmcpLayer.Sequence == 0xff && s.rmcpLayer.Class == 7 && !s.rmcpLayer.Ack
+
+//@ func (*V2Session).buildAndSend
+//@ props C05 C09 C10
+//@ requires [sess.valid] !isnil(s) && !isnil(s.v2ConnectionShared) && !isnil(s.buffer) && !isnil(s.transport) && !isnil(c) && !isnil(s.decode) && !isnil(ctx) && !isnil(s.confidentialityLayer) && !isnil(s.backoff)
+//@ requires [C09.bound] s.AuthenticatedSequenceNumbers.Inbound < 0xfffffffe // fewer than 2^32-2 datagrams per session (stated limitation)
